@@ -15,7 +15,22 @@ struct Ctx {
     std::vector<std::string> *viol;
     uint64_t getters;
     void bad(const std::string &m) { if (viol && viol->size() < 8) viol->push_back(m); }
+    // every entity of the file by kind (gathered once per observation when the lookup predicates are evaluated): a has-query by handle
+    // must also say *no* for a perfectly valid entity that merely is not a member (another block's array, a grandchild, the container itself)
+    std::vector<DataArray> pool_arrays; std::vector<DataFrame> pool_frames; std::vector<Tag> pool_tags; std::vector<MultiTag> pool_mtags;
+    std::vector<Group> pool_groups; std::vector<Source> pool_sources; std::vector<Section> pool_sections; std::vector<Property> pool_props;
+    uint64_t rot;
+    Ctx() : opt(nullptr), viol(nullptr), getters(0), rot(0) {}
 };
+const std::vector<DataArray> &pool_of(const Ctx &c, const DataArray *) { return c.pool_arrays; }
+const std::vector<DataFrame> &pool_of(const Ctx &c, const DataFrame *) { return c.pool_frames; }
+const std::vector<Tag> &pool_of(const Ctx &c, const Tag *) { return c.pool_tags; }
+const std::vector<MultiTag> &pool_of(const Ctx &c, const MultiTag *) { return c.pool_mtags; }
+const std::vector<Group> &pool_of(const Ctx &c, const Group *) { return c.pool_groups; }
+const std::vector<Source> &pool_of(const Ctx &c, const Source *) { return c.pool_sources; }
+const std::vector<Section> &pool_of(const Ctx &c, const Section *) { return c.pool_sections; }
+const std::vector<Property> &pool_of(const Ctx &c, const Property *) { return c.pool_props; }
+template<typename E> const std::vector<E> &pool_of(const Ctx &, const E *) { static const std::vector<E> none; return none; }
 
 std::string opt_s(const boost::optional<std::string> &o) { return o ? "s:" + *o : "<none>"; }
 std::string opt_d(const boost::optional<double> &o) { return o ? dbl_bits(*o) : "<none>"; }
@@ -109,6 +124,22 @@ void check_lookups(Ctx &c, const std::string &where, ndsize_t count, const std::
         }
     }
     (void) named;
+    // strangers: up to four valid entities of the kind that are not members
+    {
+        const std::vector<E> &pool = pool_of(c, (const E *) nullptr);
+        int asked = 0;
+        for (size_t k = 0; k < pool.size() && asked < 4; k++) {
+            const E &x = pool[(k + (size_t) c.rot) % pool.size()];
+            try {
+                std::string xid = x.id();
+                if (ids.count(xid)) continue;
+                asked++;
+                bool h = has_ent(x);
+                if (h) c.bad("C03.agree " + where + ": has(entity) true for an entity that is not a member (" + xid + ")");
+            } catch (const std::exception &) { /* refusing with an exception is fine */ }
+        }
+        c.rot += 3;
+    }
 }
 
 template<typename E>
@@ -474,7 +505,7 @@ void observe_updated(const File &f, std::map<std::string, std::string> &out) {
 }
 
 static ObsOpts g_plain_opts;
-#define SINGLE(name, T, body) Node name(const T &e) { Ctx c; c.opt = &g_plain_opts; c.viol = nullptr; c.getters = 0; Node n; body; return n; }
+#define SINGLE(name, T, body) Node name(const T &e) { Ctx c; c.opt = &g_plain_opts; Node n; body; return n; }
 SINGLE(observe_block, Block, { named_fields(c, n, e); metadata_field(c, n, e); })
 SINGLE(observe_array, DataArray, obs_array(c, n, e, ""))
 SINGLE(observe_frame, DataFrame, obs_frame(c, n, e, ""))
@@ -489,6 +520,21 @@ SINGLE(observe_dimension, Dimension, { FIELD(n, "index", std::to_string((unsigne
 
 Node observe(const File &b, const ObsOpts &opt, std::vector<std::string> *viol, uint64_t *getters) {
     Ctx c; c.opt = &opt; c.viol = viol; c.getters = 0;
+    if (opt.check_lookups) {
+        try {
+            std::function<void(const Source &, int)> ws = [&](const Source &s, int d) { c.pool_sources.push_back(s); if (d < 8) for (auto &k : s.sources()) ws(k, d + 1); };
+            std::function<void(const Section &, int)> wsec = [&](const Section &s, int d) { c.pool_sections.push_back(s); for (auto &p : s.properties()) c.pool_props.push_back(p); if (d < 8) for (auto &k : s.sections()) wsec(k, d + 1); };
+            for (auto &blk : b.blocks()) {
+                for (auto &x : blk.dataArrays()) c.pool_arrays.push_back(x);
+                for (auto &x : blk.dataFrames()) c.pool_frames.push_back(x);
+                for (auto &x : blk.tags()) c.pool_tags.push_back(x);
+                for (auto &x : blk.multiTags()) c.pool_mtags.push_back(x);
+                for (auto &x : blk.groups()) c.pool_groups.push_back(x);
+                for (auto &x : blk.sources()) ws(x, 1);
+            }
+            for (auto &x : b.sections()) wsec(x, 1);
+        } catch (const std::exception &) {}
+    }
     Node n("file", "");
     std::string where = "";
     FIELD(n, "id", b.id());
